@@ -337,6 +337,38 @@ fn judge_adaptors<'a>(b: &'a [u8], w: &[u64], t: &mut Tape, v: &mut Verdict) {
             }
         }
     }
+    // a consumer that takes the iterator BY VALUE reaches an overridden `fold` / `count` / `last`
+    // (through `by_ref()` only `next`, `nth` and `try_fold` of the type are reachable)
+    let left = &w[pos.min(w.len())..];
+    match t.choose(4) {
+        1 => {
+            let got = it.count();
+            if got != left.len() {
+                v.violation = bad(format!("count() by value at position {pos} returned {got}, the reference sequence has {} items left", left.len()));
+            }
+            return;
+        }
+        2 => {
+            let got = it.last().map(|r| render(&r));
+            if got != left.last().copied() {
+                v.violation = bad(format!("last() by value at position {pos} of {} differs from the reference sequence", w.len()));
+            }
+            return;
+        }
+        3 => {
+            let got = it.fold(Vec::new(), |mut a, r| {
+                if a.len() <= w.len() + 2 {
+                    a.push(render(&r));
+                }
+                a
+            });
+            if got != left {
+                v.violation = bad(format!("fold by value at position {pos} visited {} items, the reference sequence has {} left", got.len(), left.len()));
+            }
+            return;
+        }
+        _ => {}
+    }
     // whatever was consumed, the rest is the rest of the reference sequence and then nothing
     let rest: Vec<u64> = it.by_ref().take(w.len() + 2).map(|r| render(&r)).collect();
     if rest != w[pos.min(w.len())..] {
